@@ -1,4 +1,5 @@
 import TsVerif.C18.Judge
+set_option linter.unusedSimpArgs false
 /-! Helper lemmas for C18 (cache, queue). -/
 namespace TsVerif.C18
 
@@ -6,15 +7,16 @@ namespace TsVerif.C18
 def CutOK (f : Bytes → Nat) (src : Bytes) (ls b c : Nat) : Prop :=
   f (slice src ls c) = f (slice src ls b) + f (slice src b c)
 
-def OccOK (f : Bytes → Nat) (src : Bytes) (o : Occ) : Prop :=
-  o.ls ≤ o.name.s ∧ o.name.s ≤ o.name.e ∧ CutOK f src o.ls o.name.s o.name.e ∧
-  ∀ c, o.name.e ≤ c → CutOK f src o.ls o.name.e c
+/-- `Bd ls c`: offset `c` is a boundary (of the line starting at `ls`) at which `f` may be cut. -/
+def OccOK (f : Bytes → Nat) (src : Bytes) (Bd : Nat → Nat → Prop) (o : Occ) : Prop :=
+  o.ls ≤ o.name.s ∧ o.name.s ≤ o.name.e ∧ Bd o.ls o.name.s ∧ CutOK f src o.ls o.name.s o.name.e ∧
+  ∀ c, o.name.e ≤ c → Bd o.ls c → CutOK f src o.ls o.name.e c
 
-def Good (f : Bytes → Nat) (src : Bytes) (limit : Nat) (rowLs : Nat → Nat) (prev : Option LineInfo) : Prop :=
+def Good (f : Bytes → Nat) (src : Bytes) (Bd : Nat → Nat → Prop) (limit : Nat) (rowLs : Nat → Nat) (prev : Option LineInfo) : Prop :=
   ∀ info, prev = some info →
     info.pos.col = info.byte - rowLs info.pos.row ∧ rowLs info.pos.row ≤ info.byte ∧
     info.u16 = f (slice src (rowLs info.pos.row) info.byte) ∧
-    (∀ c, info.byte ≤ c → CutOK f src (rowLs info.pos.row) info.byte c) ∧
+    (∀ c, info.byte ≤ c → Bd (rowLs info.pos.row) c → CutOK f src (rowLs info.pos.row) info.byte c) ∧
     info.line = lineRange src (rowLs info.pos.row) 0 limit
 
 theorem lineRange_col (src : Bytes) (s ls limit : Nat) (h : ls ≤ s) :
@@ -23,25 +25,25 @@ theorem lineRange_col (src : Bytes) (s ls limit : Nat) (h : ls ≤ s) :
   have : s - (s - ls) = ls := by omega
   simp [this]
 
-theorem good_mk (f : Bytes → Nat) (src : Bytes) (limit : Nat) (rowLs : Nat → Nat) (o : Occ)
-    (hls : o.ls = rowLs o.row) (ho : OccOK f src o) (u : Nat) (hu : u = f (slice src o.ls o.name.e)) :
-    Good f src limit rowLs (some { pos := ⟨o.row, o.name.e - o.ls⟩, byte := o.name.e, u16 := u,
-                                   line := lineRange src o.ls 0 limit }) := by
-  obtain ⟨h1, h2, _, h4⟩ := ho
+theorem good_mk (f : Bytes → Nat) (src : Bytes) (Bd : Nat → Nat → Prop) (limit : Nat) (rowLs : Nat → Nat) (o : Occ)
+    (hls : o.ls = rowLs o.row) (ho : OccOK f src Bd o) (u : Nat) (hu : u = f (slice src o.ls o.name.e)) :
+    Good f src Bd limit rowLs
+      (some { pos := ⟨o.row, o.name.e - o.ls⟩, byte := o.name.e, u16 := u, line := lineRange src o.ls 0 limit }) := by
+  obtain ⟨h1, h2, _, _, h4⟩ := ho
   intro info hi
   have hi := (Option.some.inj hi).symm
   subst hi
   simp only [← hls]
   exact ⟨trivial, by omega, hu, h4, trivial⟩
 
-theorem cacheStep_ok (f : Bytes → Nat) (src : Bytes) (limit : Nat) (rowLs : Nat → Nat)
-    (prev : Option LineInfo) (o : Occ) (hg : Good f src limit rowLs prev)
-    (hls : o.ls = rowLs o.row) (ho : OccOK f src o) :
+theorem cacheStep_ok (f : Bytes → Nat) (src : Bytes) (Bd : Nat → Nat → Prop) (limit : Nat) (rowLs : Nat → Nat)
+    (prev : Option LineInfo) (o : Occ) (hg : Good f src Bd limit rowLs prev)
+    (hls : o.ls = rowLs o.row) (ho : OccOK f src Bd o) :
     let co := cacheStep f src limit prev o.name o.sp o.ep
     co.u16 = ⟨f (slice src o.ls o.name.s), f (slice src o.ls o.name.e)⟩ ∧
-    co.line = lineRange src o.ls 0 limit ∧ Good f src limit rowLs (some co.info) := by
-  have hgood := good_mk f src limit rowLs o hls ho
-  obtain ⟨h1, h2, h3, h4⟩ := ho
+    co.line = lineRange src o.ls 0 limit ∧ Good f src Bd limit rowLs (some co.info) := by
+  have hgood := good_mk f src Bd limit rowLs o hls ho
+  obtain ⟨h1, h2, hbd, h3, h4⟩ := ho
   have hsub : o.name.s - (o.name.s - o.ls) = o.ls := by omega
   have hline := lineRange_col src o.name.s o.ls limit h1
   unfold CutOK at h3
@@ -56,7 +58,7 @@ theorem cacheStep_ok (f : Bytes → Nat) (src : Bytes) (limit : Nat) (rowLs : Na
       rw [hrl] at g1 g2 g3 g4 g5
       by_cases hc : info.pos.col ≤ o.name.s - o.ls
       · have hb : info.byte ≤ o.name.s := by omega
-        have := g4 o.name.s hb
+        have := g4 o.name.s hb hbd
         unfold CutOK at this
         simp only [cacheStep, Option.filter, Occ.sp, Occ.ep, hr, beq_self_eq_true, if_true, hc, decide_true, g5]
         exact ⟨by simp [h3, this, g3], trivial, hgood _ (by simp [h3, this, g3])⟩
@@ -68,9 +70,9 @@ theorem cacheStep_ok (f : Bytes → Nat) (src : Bytes) (limit : Nat) (rowLs : Na
 
 
 
-theorem cache_fold_ok (f : Bytes → Nat) (src : Bytes) (limit : Nat) (rowLs : Nat → Nat) (os : List Occ) :
-    ∀ (prev : Option LineInfo), Good f src limit rowLs prev →
-    (∀ o ∈ os, o.ls = rowLs o.row ∧ OccOK f src o) →
+theorem cache_fold_ok (f : Bytes → Nat) (src : Bytes) (Bd : Nat → Nat → Prop) (limit : Nat) (rowLs : Nat → Nat) (os : List Occ) :
+    ∀ (prev : Option LineInfo), Good f src Bd limit rowLs prev →
+    (∀ o ∈ os, o.ls = rowLs o.row ∧ OccOK f src Bd o) →
     (cacheFold f src limit prev os).map (fun co => (co.u16, co.line)) =
       os.map (fun o => ((⟨f (slice src o.ls o.name.s), f (slice src o.ls o.name.e)⟩ : R),
                         lineRange src o.ls 0 limit)) := by
@@ -79,7 +81,7 @@ theorem cache_fold_ok (f : Bytes → Nat) (src : Bytes) (limit : Nat) (rowLs : N
   | cons o os ih =>
     intro prev hg hos
     have ho := hos o (List.mem_cons_self)
-    have st := cacheStep_ok f src limit rowLs prev o hg ho.1 ho.2
+    have st := cacheStep_ok f src Bd limit rowLs prev o hg ho.1 ho.2
     simp only [cacheFold, List.map_cons]
     rw [ih _ st.2.2 (fun o' h => hos o' (List.mem_cons_of_mem _ h)), st.1, st.2.1]
 
@@ -145,4 +147,275 @@ theorem qInsert_sorted (tag : Tag) (pat : Nat) (q : Queue) (h : QSorted q) : QSo
           unfold KeyLt
           exact keyLt_total (by simpa using hne) (by simpa using hnlt)
 
+
+/-! ## UTF-8 scanning -/
+
+
+theorem stepAt_char_append {x n : Nat} {rest : Bytes} (b : Bytes) (h : stepAt x rest = .char n) :
+    stepAt x (rest ++ b) = .char n ∧ n - 1 ≤ rest.length ∧ 1 ≤ n := by
+  unfold stepAt at h ⊢
+  rcases rest with _ | ⟨r1, _ | ⟨r2, _ | ⟨r3, r4⟩⟩⟩ <;> simp only [List.nil_append, List.cons_append, List.length_cons, List.length_nil] at h ⊢ <;>
+    (repeat' split at h) <;> (try cases h) <;> simp_all
+
+
+theorem scan_cons_char {x n : Nat} {rest : Bytes} (h : stepAt x rest = .char n) :
+    scan (x :: rest) = ⟨n + (scan (rest.drop (n - 1))).validUpTo, units n + (scan (rest.drop (n - 1))).u16,
+                        (scan (rest.drop (n - 1))).err⟩ := by
+  rw [scan]; simp [h]
+
+theorem scan_append (a b : Bytes) (h : (scan a).err = none) :
+    scan (a ++ b) = ⟨(scan a).validUpTo + (scan b).validUpTo, (scan a).u16 + (scan b).u16, (scan b).err⟩ := by
+  fun_induction scan a with
+  | case1 => simp
+  | case2 x rest n hs r ih =>
+    have ha := stepAt_char_append b hs
+    have ih := ih h
+    rw [List.cons_append, scan_cons_char ha.1, List.drop_append_of_le_length ha.2.1, ih]
+    simp [r, Nat.add_assoc]
+  | case3 x rest k hs => simp at h
+  | case4 x rest hs => simp at h
+
+theorem scan_valid_len (a : Bytes) (h : (scan a).err = none) : (scan a).validUpTo = a.length := by
+  fun_induction scan a with
+  | case1 => rfl
+  | case2 x rest n hs r ih =>
+    have ha := stepAt_char_append [] hs
+    simp only at h
+    have := ih h
+    simp [r, this, List.length_drop]; omega
+  | case3 x rest k hs => simp at h
+  | case4 x rest hs => simp at h
+
+
+/-! ## UTF-16 length -/
+
+
+theorem utf16Len_valid (a : Bytes) (h : (scan a).err = none) : utf16Len a = (scan a).u16 := by
+  unfold utf16Len
+  rw [lossyUnits]
+  by_cases ha : a = []
+  · subst ha; simp [scan]
+  · simp [ha, h]
+
+theorem utf16Spec_valid (a : Bytes) (h : (scan a).err = none) : utf16Spec a = (scan a).u16 := by
+  fun_induction scan a with
+  | case1 => simp [utf16Spec]
+  | case2 x rest n hs r ih =>
+    rw [utf16Spec]; simp only [hs]; rw [ih h]
+  | case3 x rest k hs => simp at h
+  | case4 x rest hs => simp at h
+
+theorem utf16Spec_append_valid (a b : Bytes) (h : (scan a).err = none) :
+    utf16Spec (a ++ b) = utf16Spec a + utf16Spec b := by
+  fun_induction scan a with
+  | case1 => simp [utf16Spec]
+  | case2 x rest n hs r ih =>
+    have ha := stepAt_char_append b hs
+    rw [List.cons_append, utf16Spec, utf16Spec]
+    simp only [hs, ha.1]
+    rw [List.drop_append_of_le_length ha.2.1, ih h]
+    omega
+  | case3 x rest k hs => simp at h
+  | case4 x rest hs => simp at h
+
+theorem slice_append (src : Bytes) (a b c : Nat) (h1 : a ≤ b) (h2 : b ≤ c) :
+    slice src a c = slice src a b ++ slice src b c := by
+  unfold slice
+  have : c - a = (b - a) + (c - b) := by omega
+  rw [this, List.take_add, List.drop_drop]
+  congr 3
+  omega
+
+theorem valid_append (a b : Bytes) (ha : validUtf8 a = true) (hb : validUtf8 b = true) : validUtf8 (a ++ b) = true := by
+  simp only [validUtf8, Option.isNone_iff_eq_none] at *
+  rw [scan_append a b ha]; exact hb
+
+theorem valid_suffix (a b : Bytes) (ha : validUtf8 a = true) (hab : validUtf8 (a ++ b) = true) : validUtf8 b = true := by
+  simp only [validUtf8, Option.isNone_iff_eq_none] at *
+  rw [scan_append a b ha] at hab; exact hab
+
+
+/-! ## line_range -/
+
+
+theorem takeWhile_append_neg {α} (p : α → Bool) (l1 l2 : List α) (h : ∃ x ∈ l1, p x = false) :
+    (l1 ++ l2).takeWhile p = l1.takeWhile p := by
+  induction l1 with
+  | nil => simp at h
+  | cons a l ih =>
+    by_cases hp : p a = true
+    · simp only [List.cons_append, List.takeWhile_cons, hp, if_true]
+      congr 1
+      apply ih
+      obtain ⟨x, hx, hpx⟩ := h
+      rcases List.mem_cons.mp hx with rfl | hx
+      · simp [hp] at hpx
+      · exact ⟨x, hx, hpx⟩
+    · simp [List.takeWhile_cons, hp]
+
+theorem takeWhile_all {α} {p : α → Bool} {l : List α} (h : ∀ x ∈ l, p x = true) : l.takeWhile p = l := by
+  induction l with
+  | nil => rfl
+  | cons a l ih =>
+    simp only [List.takeWhile_cons, h a List.mem_cons_self, if_true]
+    rw [ih (fun x hx => h x (List.mem_cons_of_mem _ hx))]
+
+theorem mem_takeWhile_sat {α} {p : α → Bool} {l : List α} {x : α} (h : x ∈ l.takeWhile p) : p x = true := by
+  induction l with
+  | nil => simp at h
+  | cons a l ih =>
+    by_cases hp : p a = true
+    · simp only [List.takeWhile_cons, hp, if_true] at h
+      rcases List.mem_cons.mp h with rfl | h
+      · exact hp
+      · exact ih h
+    · simp [List.takeWhile_cons, hp] at h
+
+theorem length_takeWhile_le' {α} (p : α → Bool) (l : List α) : (l.takeWhile p).length ≤ l.length := by
+  induction l with
+  | nil => simp
+  | cons a l ih =>
+    by_cases hp : p a = true <;> simp [List.takeWhile_cons, hp]; omega
+
+theorem dropWhile_head_neg {α} {p : α → Bool} {l : List α} {a : α} {t : List α} (h : l.dropWhile p = a :: t) :
+    p a = false := by
+  induction l with
+  | nil => simp at h
+  | cons b l ih =>
+    by_cases hp : p b = true
+    · simp only [List.dropWhile_cons, hp, if_true] at h; exact ih h
+    · simp only [List.dropWhile_cons, hp] at h
+      simp at h
+      rw [← h.1]; simpa using hp
+
+/-- The part of `line_range` after the line start is known, as a function of `rest = text[ls0..]`. -/
+def codeCore (rest : Bytes) (limit : Nat) : Nat × Nat :=
+  let lead := (rest.takeWhile isWs).length
+  let maxLen := min limit (rest.length - lead)
+  let window := (rest.drop lead).take maxLen
+  let nl := (window.takeWhile (· != 10)).length
+  let lineLen :=
+    if nl < window.length then nl
+    else
+      let r := scan window
+      if r.err.isSome then r.validUpTo else maxLen
+  (lead, (((window.take lineLen).reverse.dropWhile isWs)).length)
+
+theorem lineRange_core (text : Bytes) (sb col limit : Nat) :
+    lineRange text sb col limit =
+      ⟨sb - col + (codeCore (text.drop (sb - col)) limit).1,
+       sb - col + (codeCore (text.drop (sb - col)) limit).1 + (codeCore (text.drop (sb - col)) limit).2⟩ := by
+  simp only [lineRange, codeCore, List.drop_drop, List.length_drop]
+  have : text.length - (sb - col + (List.takeWhile isWs (List.drop (sb - col) text)).length) =
+         text.length - (sb - col) - (List.takeWhile isWs (List.drop (sb - col) text)).length := by omega
+  rw [this]
+
+def specCore (rest : Bytes) (limit : Nat) : Nat × Nat :=
+  let line := rest.takeWhile (· != 10)
+  let lead := (line.takeWhile isWs).length
+  let body := line.drop lead
+  let terminated := decide (line.length < rest.length)
+  let cut :=
+    if terminated && decide (body.length < limit) then body
+    else
+      let w := body.take limit
+      w.take (scan w).validUpTo
+  (lead, (cut.reverse.dropWhile isWs).length)
+
+theorem lineSpec_core (text : Bytes) (ls0 limit : Nat) :
+    lineSpec text ls0 limit =
+      ⟨ls0 + (specCore (text.drop ls0) limit).1,
+       ls0 + (specCore (text.drop ls0) limit).1 + (specCore (text.drop ls0) limit).2⟩ := by
+  simp only [lineSpec, specCore]
+
+
+theorem take_min_length {α} (n : Nat) (l : List α) : l.take (min n l.length) = l.take n := by
+  by_cases h : n ≤ l.length
+  · rw [Nat.min_eq_left h]
+  · have h' : l.length ≤ n := by omega
+    rw [Nat.min_eq_right h', List.take_of_length_le h', List.take_of_length_le (Nat.le_refl _)]
+
+/-- Shape of `codeCore` once the window is known to contain no newline. -/
+theorem lineLen_no_nl (w : Bytes) (maxLen : Nat) (hw : ∀ x ∈ w, (x != 10) = true) (hl : w.length = maxLen) :
+    w.take (if (w.takeWhile (· != 10)).length < w.length then (w.takeWhile (· != 10)).length
+            else if (scan w).err.isSome then (scan w).validUpTo else maxLen) = w.take (scan w).validUpTo := by
+  have : w.takeWhile (· != 10) = w := takeWhile_all hw
+  rw [this]
+  simp only [Nat.lt_irrefl, if_false]
+  cases he : (scan w).err with
+  | none =>
+    rw [scan_valid_len w he]; simp [hl]
+  | some e => simp
+
+theorem core_eq (rest : Bytes) (limit : Nat) (h : ∃ b ∈ rest.takeWhile (· != 10), isWs b = false) :
+    codeCore rest limit = specCore rest limit := by
+  have hsplit : rest.takeWhile (· != 10) ++ rest.dropWhile (· != 10) = rest := List.takeWhile_append_dropWhile
+  have hline_ne : ∀ x ∈ rest.takeWhile (· != 10), (x != 10) = true := fun x hx => mem_takeWhile_sat (p := (· != 10)) hx
+  have htail : rest.dropWhile (· != 10) = [] ∨ ∃ t, rest.dropWhile (· != 10) = 10 :: t := by
+    cases hd : rest.dropWhile (· != 10) with
+    | nil => exact Or.inl rfl
+    | cons a t =>
+      have := dropWhile_head_neg hd
+      simp at this
+      exact Or.inr ⟨t, by rw [this]⟩
+  generalize rest.takeWhile (· != 10) = line at *
+  generalize rest.dropWhile (· != 10) = tail at *
+  subst hsplit
+  have hlead : (line ++ tail).takeWhile isWs = line.takeWhile isWs := takeWhile_append_neg _ _ _ h
+  have hleadle : (line.takeWhile isWs).length ≤ line.length := length_takeWhile_le' _ _
+  have hbody_ne : ∀ x ∈ line.drop (line.takeWhile isWs).length, (x != 10) = true :=
+    fun x hx => hline_ne x (List.mem_of_mem_drop hx)
+  have htw : (line ++ tail).takeWhile (· != 10) = line := by
+    rcases htail with rfl | ⟨t, rfl⟩
+    · simp; exact takeWhile_all hline_ne
+    · rw [List.takeWhile_append_of_pos (by simpa using hline_ne)]; simp
+  simp only [codeCore, specCore, hlead, htw, List.drop_append_of_le_length hleadle, List.length_append]
+  generalize hb : line.drop (line.takeWhile isWs).length = body at *
+  have hlen : line.length + tail.length - (line.takeWhile isWs).length = body.length + tail.length := by
+    rw [← hb, List.length_drop]; omega
+  rw [hlen]
+  have hwin : (body ++ tail).take (min limit (body.length + tail.length)) = (body ++ tail).take limit := by
+    rw [← List.length_append]; exact take_min_length _ _
+  rw [hwin]
+  congr 1
+  by_cases hA : tail ≠ [] ∧ body.length < limit
+  · obtain ⟨hne, hlt⟩ := hA
+    rcases htail with rfl | ⟨t, rfl⟩
+    · exact absurd rfl hne
+    · have hterm : decide (line.length < line.length + (10 :: t).length) = true := by simp
+      simp only [hterm, hlt, decide_true, Bool.and_self, if_true]
+      obtain ⟨k, hk⟩ : ∃ k, limit - body.length = k + 1 := ⟨limit - body.length - 1, by omega⟩
+      have hw : (body ++ 10 :: t).take limit = body ++ 10 :: t.take k := by
+        rw [List.take_append, hk, List.take_of_length_le (by omega : body.length ≤ limit)]; simp
+      rw [hw]
+      have htk : (body ++ 10 :: t.take k).takeWhile (· != 10) = body := by
+        rw [List.takeWhile_append_of_pos (by simpa using hbody_ne)]; simp
+      rw [htk]
+      have : body.length < (body ++ 10 :: List.take k t).length := by simp
+      simp only [this, if_true, List.take_left']
+  · have hcond : (decide (line.length < line.length + tail.length) && decide (body.length < limit)) = false := by
+      rcases htail with rfl | ⟨t, rfl⟩
+      · simp
+      · simp at hA; simp; omega
+    simp only [hcond, Bool.false_eq_true, if_false]
+    have hw : (body ++ tail).take limit = body.take limit := by
+      rcases htail with rfl | ⟨t, rfl⟩
+      · simp
+      · simp at hA; exact List.take_append_of_le_length hA
+    rw [hw]
+    have hml : (body.take limit).length = min limit (body.length + tail.length) := by
+      rcases htail with rfl | ⟨t, rfl⟩
+      · simp [List.length_take]
+      · simp at hA; simp [List.length_take]; omega
+    rw [lineLen_no_nl (body.take limit) _ (fun x hx => hbody_ne x (List.mem_of_mem_take hx)) hml]
+
+
+end TsVerif.C18
+
+namespace TsVerif.C18
+theorem length_dropWhile_le' {α} (p : α → Bool) (l : List α) : (l.dropWhile p).length ≤ l.length := by
+  induction l with
+  | nil => simp
+  | cons a l ih =>
+    by_cases hp : p a = true <;> simp [List.dropWhile_cons, hp]; omega
 end TsVerif.C18
